@@ -1,10 +1,15 @@
 """C19 - bounded run-time contract checks (see DESIGN.md)"""
 from props.common import bj
 
-LEVEL = 'exploration'
+LEVEL = 'other'
 CONTRACT_MODULES = []
 DEDUCTIVE = []
 EXPLANATION = 'bounded stand-in: snapshots before/after validation, repeatability, registry of default rules unchanged'
+
+def extra_obligations(prog):
+    from props import frames
+    return frames.validation_observes_only(prog) + frames.registry_private(prog)
+
 
 def bounded_jobs(tier, seed):
     return [
